@@ -131,6 +131,9 @@ def run(ctx):
     scs.append({"root": "root", "tree": {"e/": None}, "ops": [{"op": "create", "at": "", "h": ["md5"]}, {"op": "create", "at": "e", "h": ["c4"]}]})
     scs.append({"root": "root", "tree": {"c/f.txt": "x", "t.txt": "t"}, "ops": [{"op": "create", "at": "c", "h": ["md5"]}, {"op": "create", "at": "", "h": ["md5"], "sf": ["c/f.txt"]}, {"op": "create", "at": "", "h": ["c4", "md5"], "sf": ["t.txt", "t.txt", "c", "c/f.txt"]}]})
     scs.append({"root": "root", "tree": {"a.txt": "1", "b.txt": "2"}, "ops": [{"op": "create", "at": "", "h": ["md5", "c4", "sha1", "xxh64", "xxh3", "xxh128"]}, {"op": "write", "path": "a.txt", "data": "changed"}, {"op": "rm", "path": "b.txt"}, {"op": "create", "at": "", "h": ["c4", "md5"]}, {"op": "flatten", "at": ""}]})
+    # rename records (previousPath) in every position the rename scenarios of C17 produce
+    from . import C17
+    scs += [C17.build(ctx.seed * 7 + k) for k in range(ctx.scale(12, 150))]
     # runs in which the serialisation of the manifest itself fails half way (a name or creator field that XML cannot
     # carry): whatever ends up as *.mhl / *.xml in an ascmhl folder must still be valid
     scs.append({"root": "root", "tree": {"a.txt": "1", "m/bad\x01name.txt": "2", "z.txt": "3"}, "ops": [{"op": "create", "at": "", "h": ["md5"]}, {"op": "create", "at": "", "h": ["c4"], "sf": ["a.txt"]}]})
